@@ -217,6 +217,34 @@ def kf_all_in_parts(w: Dict[str, Any]) -> bool:
     return all(k.rsplit(".", 1)[0] in unread and k.rsplit(".", 1)[1] in unread[k.rsplit(".", 1)[0]] for k in keys)
 
 
+def kf_reexporter_renamed(w: Dict[str, Any]) -> bool:
+    """Known finding: module M re-exports X from its defining module D (the alias left in D reads 'pkg.M.X'), and the package
+    re-exports M itself under another name ('from . import M as N'): the alias in D names a location that is outdated itself,
+    find_object follows one hop only, so references through the DEFINING module (pkg.D.X) no longer lead to the object.
+    Matches only when the object is re-exported by a module that is itself renamed, the object sits where it should, and what
+    fails are lookups of its OLD qualified name / consumers importing it from the defining module."""
+    o = w.get("origin", {})
+    if "project" not in o or not set(w.get("failed", [])) <= {"AnnotationLinks", "ConsumersResolve", "LookupByOldAndNewName", "XrefByOldAndNewName"}:
+        return False
+    proj = {**o["project"], "family": "", "meta": {}}
+    exp = P.expected_reexports(proj)
+    renamed = {e["new"] for e in exp if e["kind"] == "module"}
+    victims = [e for e in exp if e["kind"] != "module" and any(e["new"].startswith(r + ".") for r in renamed)]
+    if not victims:
+        return False
+    det = w.get("detail", {})
+    olds = {e["old"] for e in victims}
+    news = {e["new"] for e in victims}
+    if "LookupByOldAndNewName" in det and det["LookupByOldAndNewName"]["name"] not in olds:
+        return False
+    if "XrefByOldAndNewName" in det and det["XrefByOldAndNewName"]["name"] not in olds:
+        return False
+    cs = det.get("ConsumersResolve(static)")
+    if cs is not None and not (cs.get("expected") in news and cs.get("got") in ("", None)):
+        return False
+    return True
+
+
 def kf_long_import_chain(w: Dict[str, Any]) -> bool:
     """Known finding: the re-exporting module gets the name through THREE or more intermediate modules that each import it plainly
     from the next (R: from .l3 import X; l3: from .l2 import X; l2: from .l1 import X; l1: from ._base import X): expandName follows
@@ -273,6 +301,7 @@ def run(ctx: Ctx) -> int:
     ctx.register_matcher("import-listed-in-all-then-rebound", kf_import_then_rebound)
     ctx.register_matcher("reexport-through-three-intermediate-imports", kf_long_import_chain)
     ctx.register_matcher("all-written-in-parts-not-read", kf_all_in_parts)
+    ctx.register_matcher("reexporter-renamed-by-its-package", kf_reexporter_renamed)
     projs = c07_projects(ctx.quick, rng)
     results = procrun.explore(ctx, projs, record_states=False)
     oracles: Dict[int, Dict[str, Any]] = {}
